@@ -96,7 +96,54 @@ func c07Witness(w *core.WorkerCtx) {
 	w.R.Sample(5, map[string]any{"witness": desc, "checkpointed": len(n.Prev.Stored), "tips": len(n.Prev.Leaves)})
 }
 
+// c07GrossOverflow is the fixed scenario of the known finding checkpoint-funds-differ/gross-flow-beyond-2^64: a wallet
+// whose inflow, summed over the vertices one truncation checkpoints, exceeds 2^64-1 units although its balance never
+// does. Supply 2^64-2 to U0; U0 pays WH 2^63; WH pays 2^63-10 back; 1020 more vertices between other wallets; truncation.
+func c07GrossOverflow(w *core.WorkerCtx, report []string) {
+	rng := core.Rand(w.Seed, "C07gross")
+	desc := "gross inflow beyond 2^64: supply 2^64-2 to U0, U0->WH 2^63, WH->U0 2^63-10, 1020 vertices between U1 and U2, truncation"
+	world := ledger.NewWorld(rng, w.R, report, allSnapOracles, desc)
+	defer world.Close()
+	d, err := ledger.Setup(world, ledger.Profile{Nodes: 1, Users: 4, SupplyClass: 1, Delivery: "lockstep"})
+	if err != nil {
+		w.R.Inconc("gross overflow witness setup failed: " + err.Error())
+		return
+	}
+	n := world.Nodes[0]
+	u := world.Users
+	wh := ledger.NewActor("WH")
+	world.Extra = append(world.Extra, wh)
+	world.Keys[wh.Addr] = wh.W.Public
+	for i := 1; i <= 2; i++ {
+		t := world.NewTrx(u[0], u[i].Addr, spice.Melange{Currency: 150}, nil)
+		world.Propose(n, &t, "fund")
+	}
+	t1 := world.NewTrx(u[0], wh.Addr, spice.Melange{Currency: 1 << 63}, nil)
+	world.Propose(n, &t1, "U0 pays WH 2^63")
+	t2 := world.NewTrx(wh, u[0].Addr, spice.Melange{Currency: 1<<63 - 10}, nil)
+	world.Propose(n, &t2, "WH pays 2^63-10 back")
+	world.Quiet = true
+	for i := 0; i < 1020; i++ {
+		t := world.NewTrx(u[1+i%2], u[2-i%2].Addr, spice.Melange{SupplementaryCurrency: uint64(1 + i%9)}, nil)
+		world.Propose(n, &t, "grow")
+	}
+	world.Quiet = false
+	world.Observe(n, ledger.OpInfo{Kind: "milestone", OK: true})
+	for a := 0; a < 3; a++ {
+		before := len(n.Prev.Stored)
+		world.TruncateChecked(n, d, false)
+		if len(n.Prev.Stored) > before {
+			break
+		}
+	}
+	world.NontrivFor("C07", "witness/gross-flow-beyond-2^64")
+	w.R.Sample(5, map[string]any{"witness": desc, "checkpointed": len(n.Prev.Stored)})
+}
+
 func c07Worker(w *core.WorkerCtx) {
+	if w.Batch == 3 {
+		c07GrossOverflow(w, []string{"C07"})
+	}
 	if w.Batch == 0 {
 		c07Witness(w)
 	}
